@@ -34,12 +34,17 @@ def f(*a):
 def g(*a):
     log.append(('g', a))
     return ('g', a)
+def h(*a, **k):
+    log.append(('h', a, k))
+    return ('h', a, k)
 class C1:
     def __getitem__(self, key):
         log.append(('gi', 1, key))
         return 100
     def __setitem__(self, key, v):
         log.append(('si', 1, key, v))
+    def __delitem__(self, key):
+        log.append(('di', 1, key))
     def __contains__(self, x):
         log.append(('in', 1, x))
         return True
@@ -49,6 +54,8 @@ class C2:
         return 200
     def __setitem__(self, key, v):
         log.append(('si', 2, key, v))
+    def __delitem__(self, key):
+        log.append(('di', 2, key))
     def __contains__(self, x):
         log.append(('in', 2, x))
         return False
@@ -58,12 +65,16 @@ class O1:
         return 1000 + len(n)
     def __setattr__(self, n, v):
         log.append(('sa', 1, n, v))
+    def __delattr__(self, n):
+        log.append(('da', 1, n))
 class O2:
     def __getattr__(self, n):
         log.append(('ga', 2, n))
         return 2000 + len(n)
     def __setattr__(self, n, v):
         log.append(('sa', 2, n, v))
+    def __delattr__(self, n):
+        log.append(('da', 2, n))
 c1 = C1()
 c2 = C2()
 o1 = O1()
@@ -119,6 +130,9 @@ func c01Show(o py.Object) string {
 		}
 		return "{" + strings.Join(parts, ",") + "}"
 	case *py.Slice:
+		if x.Step != nil && x.Step != py.None {
+			return "slice(" + c01Show(x.Start) + "," + c01Show(x.Stop) + "," + c01Show(x.Step) + ")"
+		}
 		return "slice(" + c01Show(x.Start) + "," + c01Show(x.Stop) + ")"
 	case *py.Function:
 		return "<fn " + x.Name + ">"
@@ -128,8 +142,43 @@ func c01Show(o py.Object) string {
 	return "<" + o.Type().Name + ">"
 }
 
+// c01Const renders a constant of a code object; a nested code object (lambda / def) is
+// rendered with its parameter list and its own listing
 func c01Const(o py.Object) string {
+	if c, ok := o.(*py.Code); ok {
+		return "<code " + c01Sig(c) + ": " + c01Dis(c) + ">"
+	}
 	return c01Show(o)
+}
+
+// c01Sig = "[pos,...;kwonly,...;*vararg or -;**kwarg or -]" from the code object
+func c01Sig(c *py.Code) string {
+	vn := c.Varnames
+	get := func(i int) string {
+		if i < len(vn) {
+			return vn[i]
+		}
+		return "?"
+	}
+	na, nk := int(c.Argcount), int(c.Kwonlyargcount)
+	pos := make([]string, na)
+	for i := range pos {
+		pos[i] = get(i)
+	}
+	kwo := make([]string, nk)
+	for i := range kwo {
+		kwo[i] = get(na + i)
+	}
+	next := na + nk
+	va, kw := "-", "-"
+	if c.Flags&py.CO_VARARGS != 0 {
+		va = "*" + get(next)
+		next++
+	}
+	if c.Flags&py.CO_VARKEYWORDS != 0 {
+		kw = "**" + get(next)
+	}
+	return "[" + strings.Join(pos, ",") + ";" + strings.Join(kwo, ",") + ";" + va + ";" + kw + "]"
 }
 
 var c01Rel = map[vm.OpCode]bool{
@@ -199,7 +248,19 @@ func c01Dis(code *py.Code) string {
 			}
 			out[k] = fmt.Sprintf("%s(%d)", name, t)
 		case in.op == vm.LOAD_CONST:
-			out[k] = name + "(" + c01Const(code.Consts[in.arg]) + ")"
+			cs := c01Const(code.Consts[in.arg])
+			// the qualified name pushed right after a code object: only its last component is
+			// modelled ("<lambda>.<locals>.<lambda>" -> "<lambda>")
+			if k > 0 && list[k-1].op == vm.LOAD_CONST {
+				if _, isCode := code.Consts[list[k-1].arg].(*py.Code); isCode {
+					if i := strings.LastIndex(cs, ".<locals>."); i >= 0 {
+						cs = "'" + cs[i+len(".<locals>."):]
+					}
+				}
+			}
+			out[k] = name + "(" + cs + ")"
+		case in.op == vm.LOAD_FAST || in.op == vm.STORE_FAST || in.op == vm.DELETE_FAST:
+			out[k] = name + "(" + code.Varnames[in.arg] + ")"
 		case c01Name[in.op]:
 			out[k] = name + "(" + code.Names[in.arg] + ")"
 		default:
